@@ -152,8 +152,26 @@ def _term(ev, expr, env, binding, children, f, depth=0):
 from ..shapes import ShapeEval as _Concrete, shapes as _shapes, rename as _rename, ka_of as _ka_of, LEAVES, FIELDS  # noqa: E402,F401
 
 
-def _decide_concrete(ctx, cls, m, K):
-    """None when every return of the visit method denotes K(children) on all child shapes, else a description"""
+def _flat(sh):
+    """a shape with its Sum / Concat chains flattened (printed forms do not show how a chain is nested)"""
+    if not (isinstance(sh, tuple) and sh and sh[0] in ARITY):
+        return sh
+    if sh[0] in ('Sum', 'Concat'):
+        parts = []
+
+        def go(x):
+            if isinstance(x, tuple) and x and x[0] == sh[0]:
+                go(x[1]); go(x[2])
+            else:
+                parts.append(_flat(x))
+        go(sh)
+        return (sh[0] + '*',) + tuple(parts)
+    return (sh[0],) + tuple(_flat(x) for x in sh[1:])
+
+
+def _decide_concrete(ctx, cls, m, K, exact=False):
+    """None when every return of the visit method denotes K(children) on all child shapes, else a description.  With
+    exact, the result must also BE K(children) up to the nesting of Sum / Concat chains (same printed form)."""
     shapes = _shapes()
     arity = ARITY[K]
     n = 0
@@ -174,6 +192,8 @@ def _decide_concrete(ctx, cls, m, K):
             continue
         if not ka.equivalent(_ka_of(want), _ka_of(got))[0]:
             return n, (combo, want, got)
+        if exact and _flat(got) != _flat(want):
+            return n, (combo, want, got, 'form')
     return n, None
 
 
@@ -181,7 +201,7 @@ def _show(sh):
     return ka.show(_ka_of(sh))
 
 
-def check_visitors(ctx, rep, rule=RULE):
+def check_visitors(ctx, rep, rule=RULE, exact=False):
     n = 0
     for gname, modname in VISITORS.items():
         g = ctx.prog.grammars.get(gname)
@@ -203,13 +223,17 @@ def check_visitors(ctx, rep, rule=RULE):
                 continue
             n += 1
             try:
-                cases, bad_c = _decide_concrete(ctx, cls, m, K)
-                if bad_c is not None:
+                cases, bad_c = _decide_concrete(ctx, cls, m, K, exact)
+                if bad_c is not None and len(bad_c) == 4:
+                    combo, want, got, _ = bad_c
+                    rep.violates(rule, m, 'def visit' + lab, 'for the alternative {} with the sub-expressions {} the visitor returns {} where the text says {}: the language is the same, but the re-parsed '
+                                 'expression is not the one that was printed, so printing it again gives another text (a rewrite while parsing breaks the round trip)'.format(lab, ', '.join(_show(x) for x in combo), _show(got), _show(want)))
+                elif bad_c is not None:
                     combo, want, got = bad_c
                     rep.violates(rule, m, 'def visit' + lab, 'for the alternative {} with the sub-expressions {} the visitor returns {} where the grammar says {}: the parser itself changes the language of '
                                  'the expression ({} = {} is not an identity of Kleene algebra)'.format(lab, ', '.join(_show(x) for x in combo), _show(got), _show(want), _show(want), _show(got)))
                 else:
-                    rep.holds(rule, m, 'def visit' + lab, 'on all {} combinations of sub-expression shapes (depth <= 2 over 0, 1, a letter) visit{} returns an expression equal to {}(children) in Kleene algebra'.format(cases, lab, K))
+                    rep.holds(rule, m, 'def visit' + lab, 'on all {} combinations of sub-expression shapes (depth <= 2 over 0, 1, a letter) visit{} returns {}'.format(cases, lab, ('{}(children) itself (up to the nesting of chains)' if exact else 'an expression equal to {}(children) in Kleene algebra').format(K)))
                 continue
             except (Unsupported, ka.Unsupported if hasattr(ka, 'Unsupported') else Unsupported):
                 pass
